@@ -5,7 +5,7 @@ runs of tools/seedcheck.sh)."""
 import json, os, re, sys
 ROOT = os.path.dirname(os.path.dirname(os.path.abspath(__file__)))
 res = json.load(open(os.path.join(ROOT, 'tools', 'seed_results.json')))
-ROUND = {'': 1, 'b': 2, 'c': 3, 'd': 4, 'e': 5, 'f': 6, 'g': 7, 'h': 8}
+ROUND = {'': 1, 'b': 2, 'c': 3, 'd': 4, 'e': 5, 'f': 6, 'g': 7, 'h': 8, 'i': 9, 'j': 10}
 for d in sorted(os.listdir(os.path.join(ROOT, 'seeded'))):
     p = os.path.join(ROOT, 'seeded', d)
     cf = os.path.join(p, 'confirm.json')
